@@ -50,13 +50,13 @@ func (c20) Plan(tier string, seed int64) []mon.Workload {
 }
 
 type c20Case struct {
-	Files    map[string]string
-	Script   string
-	Input    string // "" = none
-	InType   string
-	OutType  string
-	Mode     string // workspace | single
-	Features []string
+	Files      map[string]string
+	Script     string
+	Input      string // "" = none
+	InType     string
+	OutType    string
+	Mode       string // workspace | single
+	Features   []string
 	ScriptTime bool // the script sets the time
 }
 
